@@ -284,9 +284,9 @@ def only_full(r, F):
             cnt = [k for k in names if "blocks" in k][0]
             if diff[cnt] * diff["1"] < 0:
                 tgt_ne = c.target("lt")
-                ok = f.edge_guards(c.sw.idx, tgt_ne, owf.idx)
+                ok = f.edge_guards(c.sw.idx, tgt_ne, owf.idx) and f.must_pass(tgt_ne, [owf.idx])   # exactly: on that edge, always
     r.require(ok, f, "on_writing_finish iff not the batch's last block", "only blocks that were completely filled become evictable; the last (still open) block stays with the flusher",
-              "on_writing_finish is not control-dependent on `i != blocks - 1`: a block that is still being written can be reclaimed", ln=owf.term.ln)
+              "on_writing_finish is not executed exactly when `i != blocks - 1`: a block that is still being written can be reclaimed, or a completely written block never becomes evictable", ln=owf.term.ln)
 
 
 def pickers_and_init(r, F):
